@@ -1131,4 +1131,281 @@ def oracle_C18(inp):
     return out
 
 
+# ------------------------------------------------------------------------------------------ C10
+
+def oracle_C10(inp):
+    """the algebra of the search syntax: (search, derived search) pairs on FindInList and on the
+    Finders over a built tree"""
+    from spil import FindInList, FindInPaths, FindInAll
+    from spil.sid.read.tools import unfold_search
+    out = []
+    leaves = inp["leaves"]
+    wipe()
+    build(leaves, None)
+    G = closure(leaves)
+    finders = [("list", lambda: FindInList(list(G))), ("paths", lambda: FindInPaths()), ("all", lambda: FindInAll())]
+
+    def find(mk, s):
+        return list(mk().find(s, as_sid=False))
+
+    for rule in inp["rules"]:
+        kind, s = rule["kind"], rule["s"]
+        for name, mk in finders:
+            try:
+                base = find(mk, s)
+                if len(base) != len(set(base)):
+                    out.append("%s.find(%r) has duplicates" % (name, s))
+                if kind in ("or", "alias"):
+                    union = set()
+                    for alt in rule["alts"]:
+                        union |= set(find(mk, alt))
+                    if set(base) != union:
+                        out.append("%s: %s rule: find(%r) = %r, union over %r = %r" % (name, kind, s, sorted(base), rule["alts"], sorted(union)))
+                elif kind == "starstar":
+                    union = set()
+                    leaf_tpls = [tf for _, tf in templates() if tf and tf[-1][0] in set(conf.leaf_keys.values())]
+                    for alt in rule["alts"]:
+                        # only the numbers of levels that complete the string to a LEAF type count
+                        if not any(accepts(tf, alt.split("/")) for tf in leaf_tpls):
+                            continue
+                        for r in find(mk, alt):
+                            # a list is searched by string: its entries carry no type to restrict
+                            if name == "list" or Sid(r).is_leaf():
+                                union.add(r)
+                    if set(base) != union:
+                        out.append("%s: ** rule: find(%r) = %r, union of leaf results over %r = %r" % (name, s, sorted(base), rule["alts"], sorted(union)))
+                elif kind == "filter":
+                    k, val = rule["k"], rule["v"]
+                    us = unfold_search(s)
+                    if not us or not all(k in u.fields for u in us):
+                        continue
+                    filt = find(mk, s + "?" + k + "=" + val)
+                    exp = {r for r in base if Sid(r).get(k) == val}
+                    if set(filt) != exp:
+                        out.append("%s: filter rule: find(%r?%s=%s) = %r, expected %r" % (name, s, k, val, sorted(filt), sorted(exp)))
+                elif kind == "literal":
+                    i, val = rule["i"], rule["v"]
+                    lit = find(mk, rule["lit"])
+                    exp = {r for r in base if r.split("/")[i] == val}
+                    if set(lit) != exp:
+                        out.append("%s: literal rule: find(%r) = %r, expected %r" % (name, rule["lit"], sorted(lit), sorted(exp)))
+                for r in base[:3]:
+                    x = Sid(r)
+                    if not x:
+                        if name != "list":
+                            out.append("%s.find(%r) returned the untyped %r" % (name, s, r))
+                    elif name != "all" and not x.match(s):
+                        out.append("%s: result %r does not match %r" % (name, r, s))
+            except SpilException:
+                continue
+            except BaseException as e:  # noqa
+                out.append("%s: %s rule on %r raised %s: %s" % (name, kind, s, type(e).__name__, e))
+    return out
+
+
+# ------------------------------------------------------------------------------------------ C17
+
+class _Crash(BaseException):
+    """simulated process death"""
+
+
+class _FileProxy:
+    def __init__(self, f, hook, name):
+        self._f, self._hook, self._name = f, hook, name
+
+    def write(self, data):
+        return self._hook.on_write(self, data)
+
+    def __enter__(self):
+        return self
+
+    def __exit__(self, *a):
+        try:
+            self._f.close()
+        finally:
+            self._hook.trace.append(("close", self._name))
+        return False
+
+    def close(self):
+        self._f.close()
+        self._hook.trace.append(("close", self._name))
+
+    def __getattr__(self, k):
+        return getattr(self._f, k)
+
+
+class _CrashHook:
+    """intercepts the primitive file effects of a sidecar write; dies after `budget` effects
+    (an effect = open-for-write, each written character, the replace)"""
+
+    def __init__(self, budget, suffix):
+        import io, os
+        self.budget = budget
+        self.suffix = suffix
+        self.trace = []
+        self.count = 0
+        self._io_open, self._os_replace, self._os_rename = io.open, os.replace, os.rename
+
+    def _tick(self):
+        if self.budget is not None and self.count >= self.budget:
+            raise _Crash()
+        self.count += 1
+
+    def _interesting(self, name):
+        n = str(name)
+        return n.endswith(self.suffix) or n.endswith(self.suffix + ".tmp") or ".tmp" in n.rsplit("/", 1)[-1]
+
+    def open(self, file, mode="r", *a, **kw):
+        if self._interesting(file) and any(m in mode for m in "wax+"):
+            self._tick()
+            f = self._io_open(file, mode, *a, **kw)
+            self.trace.append(("open", str(file), mode))
+            return _FileProxy(f, self, str(file))
+        return self._io_open(file, mode, *a, **kw)
+
+    def on_write(self, proxy, data):
+        n = 0
+        for ch in data:
+            try:
+                self._tick()
+            except _Crash:
+                proxy._f.flush()
+                self.trace.append(("write", proxy._name, n))
+                raise
+            proxy._f.write(ch)
+            n += 1
+        proxy._f.flush()
+        self.trace.append(("write", proxy._name, n))
+        return n
+
+    def replace(self, src, dst, *a, **kw):
+        self._tick()
+        r = self._os_replace(src, dst, *a, **kw)
+        self.trace.append(("replace", str(src), str(dst)))
+        return r
+
+    def __enter__(self):
+        import io, os, pathlib
+        io.open = self.open
+        os.replace = self.replace
+        os.rename = self.replace
+        self._pl_open = getattr(pathlib, "io", None)
+        import builtins
+        self._b_open = builtins.open
+        builtins.open = self.open
+        return self
+
+    def __exit__(self, *a):
+        import io, os, builtins
+        io.open, os.replace, os.rename = self._io_open, self._os_replace, self._os_rename
+        builtins.open = self._b_open
+        return False
+
+
+def oracle_C17(inp):
+    """kill a sidecar write after every prefix of its primitive effects; plant damaged sidecars"""
+    import json as _json
+    from spil import WriteToPaths, GetFromPaths, FindInPaths
+    out = []
+    sid, other = inp["sid"], inp["other"]
+    old = None if inp.get("old") is None else {k: _json.loads(v) for k, v in inp["old"]}
+    new = {k: _json.loads(v) for k, v in inp["new"]}
+    suffix = conf.path_data_suffix
+
+    def setup():
+        wipe()
+        w = WriteToPaths()
+        w.create(sid)
+        w.create(other, {"keep": "me"})
+        if old is not None:
+            w.set(sid, **old)
+
+    def read(s):
+        d = dict(GetFromPaths().get_data(s))
+        d.pop("sid", None)
+        return d
+
+    merged = dict(old or {})
+    merged.update(new)
+    # 1. trace of an uninterrupted write, compared with the model's effect list
+    setup()
+    with _CrashHook(None, suffix) as h:
+        WriteToPaths().set(sid, **new)
+    total = h.count
+    kinds = [t[0] for t in h.trace]
+    data_path = str(conf.get_data_json_path(Sid(sid).path()))
+    opens = [t for t in h.trace if t[0] == "open"]
+    reps = [t for t in h.trace if t[0] == "replace"]
+    if not (len(opens) == 1 and opens[0][1] != data_path and kinds[-1] == "replace" and len(reps) == 1
+            and reps[0][1] == opens[0][1] and reps[0][2] == data_path):
+        out.append("primitive effects of set() are not [create tmp, write..., close, replace tmp -> sidecar]: %r" % (h.trace,))
+    if read(sid) != merged:
+        out.append("uninterrupted set: read %r, expected %r" % (read(sid), merged))
+    # 2. death after every prefix of the effects
+    for k in range(0, total + 1):
+        setup()
+        try:
+            with _CrashHook(k, suffix):
+                WriteToPaths().set(sid, **new)
+            crashed = False
+        except _Crash:
+            crashed = True
+        except BaseException as e:  # noqa
+            out.append("crash point %d: set raised %s: %s" % (k, type(e).__name__, e))
+            continue
+        try:
+            got = read(sid)
+            if got != (old or {}) and got != merged:
+                out.append("after death at effect %d/%d the data is neither old nor new: %r (old %r, new %r)" % (k, total, got, old, merged))
+            if read(other) != {"keep": "me"}:
+                out.append("after death at effect %d another Sid's data changed: %r" % (k, read(other)))
+            found = list(FindInPaths().find(sid.rsplit("/", 1)[0] + "/*", as_sid=False))
+            if sid not in found:
+                out.append("after death at effect %d a search no longer finds %r: %r" % (k, sid, found))
+            WriteToPaths().set(sid, z=1)
+            exp = dict(got)
+            exp["z"] = 1
+            if read(sid) != exp:
+                out.append("after death at effect %d the next set gives %r, expected %r" % (k, read(sid), exp))
+        except BaseException as e:  # noqa
+            out.append("after death at effect %d/%d: %s: %s" % (k, total, type(e).__name__, e))
+        if len(out) > 3:
+            return out
+    # 3. damaged sidecars
+    setup()
+    WriteToPaths().set(sid, **new)
+    from pathlib import Path
+    dp = Path(data_path)
+    text = dp.read_text()
+    cases = [("truncated at %d" % i, text[:i]) for i in range(0, len(text), max(1, len(text) // 25))] + [("emptied", "")]
+    for name, content in cases + [("directory", None)]:
+        if content is None:
+            dp.unlink()
+            dp.mkdir()
+        else:
+            dp.write_text(content)
+        try:
+            got = dict(GetFromPaths().get_data(sid))
+            valid = None
+            if content:
+                try:
+                    valid = _json.loads(content)
+                except ValueError:
+                    valid = None
+            if valid is None and got != {"sid": sid}:
+                out.append("sidecar %s: get_data returns %r, expected only the sid entry" % (name, got))
+            if read(other) != {"keep": "me"}:
+                out.append("sidecar %s: another Sid's data is affected" % name)
+            found = list(FindInPaths().find(sid.rsplit("/", 1)[0] + "/*", as_sid=False))
+            if sid not in found:
+                out.append("sidecar %s: search no longer finds %r" % (name, sid))
+        except BaseException as e:  # noqa
+            out.append("sidecar %s: %s: %s" % (name, type(e).__name__, e))
+        if content is None:
+            dp.rmdir()
+        if len(out) > 3:
+            break
+    return {"failures": out, "evaluations": total + 1 + len(cases) + 1}
+
+
 ORACLES = {name[7:]: fn for name, fn in list(globals().items()) if name.startswith("oracle_")}
